@@ -4,7 +4,7 @@
    compared with what the implementation produced.  Extracted separately from Check/Run.v so that the specification
    checker keeps working when the translated model does not compile. *)
 From Coq Require Import ZArith List Bool Arith.
-From SpadeV Require Import Num.Decode Num.Decode2 Geom.Pred Obs.State Obs.Spec Vmap.Model Dcel.Raw Gen.DcelOps Tri.Legalize Tri.Insert Tri.Locate Check.Codes Check.Run.
+From SpadeV Require Import Num.Decode Num.Decode2 Geom.Pred Obs.State Obs.Spec Vmap.Model Dcel.Raw Gen.DcelOps Tri.Legalize Tri.Insert Tri.Locate Tri.InsertLine Check.Codes Check.Run.
 Import ListNotations.
 
 Definition dcel_eqb (a b : dcel) : bool :=
@@ -64,7 +64,49 @@ Definition insert_candidates (p : obs) (pts : list pnt) (q : pnt) : list iloc :=
     end
   end.
 
+(* degenerate states: every location the exact specification allows *)
+Definition line_candidates (p : obs) (pts : list pnt) (q : pnt) : list lloc :=
+  if nV p =? 0 then [LFirst] else
+  match find (fun v => pnt_eqb (pos pts v) q) (seq 0 (nV p)) with
+  | Some v => [LOnVertex v]
+  | None =>
+    if nV p =? 1 then [LSecond] else
+    let off := filter (fun e => (0 <? orient (eorg p pts e) (edst p pts e) q)%Z) (seq 0 (nH p)) in
+    match off with
+    | _ :: _ => map LNotOnLine off
+    | [] =>
+      let on_edges := filter (fun e => strictly_between (eorg p pts e) (edst p pts e) q) (seq 0 (nH p)) in
+      match on_edges with
+      | _ :: _ => map LOnEdge on_edges
+      | [] => map LExtending (seq 0 (nV p))
+      end
+    end
+  end.
+
+Definition check_insert_line_model (p n : obs) (x y d : Z) (res : list Z) : list (tag * bool) :=
+  match res with
+  | [r0; _] =>
+    if negb (r0 =? K_ok)%Z then [] else
+    match decode_points (coord_bits p ++ [x; y]) with
+    | Some allp =>
+        let pts := firstn (nV p) allp in
+        match skipn (nV p) allp with
+        | [q] =>
+            let dd := dcel_of_obs p in
+            let dn := dcel_of_obs n in
+            let fuel := nH p * nH p + 200 in
+            [(T_corr, existsb (fun loc => match insert_line allp fuel dd loc (mkvd x y d) with
+                                           | Some d' => dcel_eqb d' dn
+                                           | None => false end) (line_candidates p pts q))]
+        | _ => [(T_parse, false)]
+        end
+    | None => []
+    end
+  | _ => []
+  end.
+
 Definition check_insert_model (p n : obs) (x y d : Z) (res : list Z) : list (tag * bool) :=
+  if nF p <=? 1 then check_insert_line_model p n x y d res else
   match res with
   | [r0; _] =>
     if negb (r0 =? K_ok)%Z || (nF p <=? 1) then [] else
@@ -116,6 +158,24 @@ Definition check_locate_model (p : obs) (x y : Z) (hint : option Z) (res : list 
   | None => []
   end.
 
+(* ---- nearest_neighbor: the answer is where the greedy walk stops from some start vertex (the hint comes from the hint generator) ---- *)
+Definition check_nn_model (p : obs) (x y : Z) (res : list Z) : list (tag * bool) :=
+  if nF p <=? 1 then [] else
+  match decode_points_e (coord_bits p ++ [x; y]), res with
+  | Some (allp, em), [k; v] =>
+      let pts := firstn (nV p) allp in
+      match skipn (nV p) allp with
+      | [q] =>
+          if exact_class allp && (0 <=? em)%Z then
+            let dd := dcel_of_obs p in
+            [(T_corr, (k =? K_some)%Z &&
+                      existsb (fun s0 => match walk_to_nearest pts dd q s0 with Some w => w =? Z.to_nat v | None => false end) (seq 0 (nV p)))]
+          else []
+      | _ => []
+      end
+  | _, _ => []
+  end.
+
 Fixpoint run_model_steps (p : obs) (k : nat) (l : list step) : list verdict :=
   match l with
   | [] => []
@@ -127,6 +187,8 @@ Fixpoint run_model_steps (p : obs) (k : nat) (l : list step) : list verdict :=
               match s_args st with [x; y; h] => map (fun v => (k, fst v, snd v)) (check_locate_model p x y (Some h) (s_res st)) | _ => [] end
             else if (s_op st =? OP_loc)%Z then
               match s_args st with [x; y] => map (fun v => (k, fst v, snd v)) (check_locate_model p x y None (s_res st)) | _ => [] end
+            else if (s_op st =? OP_nn)%Z then
+              match s_args st with [x; y] => map (fun v => (k, fst v, snd v)) (check_nn_model p x y (s_res st)) | _ => [] end
             else [])
          else [])
         ++ run_model_steps p (S k) t
